@@ -1,12 +1,13 @@
-CLAIM = False
+CLAIM = True
 from props.C01 import gp
 
 
 def obligations(tier):
     q = tier == 'quick'
     obs = []
+    # quick tier: qsbr with 3 rounds (9 min) and mb with 2 symbolic rounds before the solo phase; thorough: 3 rounds everywhere (mb: 24 min)
     for fl in (('mb', 'qsbr') if q else ('mb', 'memb', 'qsbr')):
-        obs += gp('%s_1r' % fl, fl, ['updater', 'reader'], 3, faults=1, live=True, safe=False,
+        obs += gp('%s_1r' % fl, fl, ['updater', 'reader'], 2 if (q and fl == 'mb') else 3, faults=1, live=True, safe=False,
                   desc='%s: synchronize_rcu completes once the reader has left; futex waits may return spuriously / EINTR once; deadlock detector after every round' % fl)
     if not q:
       obs += gp('mb_1r_tso1', 'mb', ['updater', 'reader'], 3, tso=1, faults=1, live=True, safe=False,
